@@ -117,7 +117,20 @@ func c16Case(in c16In, tags ...string) caseRec {
 				validTerm = "(Some " + coqBool(ve == nil) + ")"
 			}
 		}
-		coq = fmt.Sprintf("(KObs %s %s %s %s %s)", inTerm, coqHex(raw), resTerm(coqRawObs(dec), de, dp), validTerm, coqBool(in.HasPred))
+		// ValidateObservation as a whole, from the bytes, at the sequence numbers that matter (0: refused, 1: must be empty, later)
+		var vs []string
+		for _, seq := range []uint64{0, 1, 2} {
+			ve, vp, _ := protect(func() error { return p.ValidateObservation(context.Background(), ocrCtx(seq), nil, ocrAO(raw)) })
+			switch {
+			case vp:
+				vs = append(vs, "(Panic 0)")
+			case ve != nil:
+				vs = append(vs, "(Err EOther)")
+			default:
+				vs = append(vs, "(Ok tt)")
+			}
+		}
+		coq = fmt.Sprintf("(KObs %s %s %s %s %s %s)", inTerm, coqHex(raw), resTerm(coqRawObs(dec), de, dp), validTerm, coqBool(in.HasPred), coqList(vs))
 	case "sval":
 		v := in.Val.value()
 		var b []byte
